@@ -47,9 +47,9 @@ def cn_xml(lit, ent=None):
     return '<cn cellml:units="dimensionless">%s</cn>' % text
 
 
-def document(lits, entities=False):
+def document(lits, entities=False, explit=None, tinit=None):
     ent = [] if entities else None
-    vs = ['<variable name="t" units="second"/>',
+    vs = ['<variable name="t" units="second"%s/>' % (' initial_value="%s"' % tinit['text'] if tinit else ''),
           '<variable name="x" units="dimensionless" initial_value="%s"/>' % lits[0]['text']]
     eqs = ['<apply><eq/><apply><diff/><bvar><ci>t</ci></bvar><ci>x</ci></apply>'
            '<cn cellml:units="dimensionless">1</cn></apply>']
@@ -59,6 +59,10 @@ def document(lits, entities=False):
         else:
             vs.append('<variable name="c%d" units="dimensionless"/>' % i)
             eqs.append('<apply><eq/><ci>c%d</ci>%s</apply>' % (i, cn_xml(lit, ent)))
+    if explit is not None:
+        # a literal placed directly as the exponent of a power
+        vs.append('<variable name="pw" units="dimensionless"/>')
+        eqs.append('<apply><eq/><ci>pw</ci><apply><power/><ci>x</ci>%s</apply></apply>' % cn_xml(explit, ent))
     doctype = ''
     if ent:
         doctype = '<!DOCTYPE model [' + ''.join('<!ENTITY n%d "%s">' % (k, t) for k, t in enumerate(ent)) + ']>'
@@ -111,7 +115,7 @@ def run_impl(case):
     out = {'obs': [dict() for _ in lits], 'precs': [], 'load': None}
     fd, path = tempfile.mkstemp(suffix='.cellml')
     try:
-        os.write(fd, document(lits, case.get('entities', False)).encode())
+        os.write(fd, document(lits, case.get('entities', False), case.get('explit'), case.get('tinit')).encode())
         os.close(fd)
         try:
             m = cellmlmanip.load_model(path)
@@ -189,6 +193,32 @@ def run_impl(case):
                 r = Transpiler().parse_string(MATH_OPEN + cn_xml(lits[i + 1]) + '</math>')
                 return float(pr.doprint(r[0]))
             guard(o, 'fragment_doprint', fragprint)
+    out['extra'] = {}
+    if case.get('explit') is not None:
+        o = out['extra']['explit'] = {}
+        pw = m.get_variable_by_name('c$pw')
+
+        def expo(e):
+            pws = [p_ for p_ in sympy.preorder_traversal(e) if isinstance(p_, sympy.Pow)]
+            return pws[0].exp if pws else sympy.Integer(1)      # x**1 collapses to x
+        guard(o, 'float(quantity)', lambda: float(expo(m.get_definition(pw).rhs)))
+        try:
+            srhs = [eq.rhs for eq in m.get_equations_for([pw], strip_units=True) if eq.lhs is pw][0]
+            guard(o, 'stripped', lambda: float(expo(srhs)))
+            guard(o, 'doprint', lambda: float(pr.doprint(srhs).split('**')[1].strip().strip('()')) if '**' in pr.doprint(srhs) else 1.0)
+        except Exception as e:
+            o['stripped'] = 'ERR:' + vlib.err_class(e)
+    if case.get('tinit') is not None:
+        o = out['extra']['tinit'] = {}
+        t = m.get_variable_by_name('c$t')
+        guard(o, 'float(quantity)', lambda: float(m.get_definition(t).rhs))
+        guard(o, 'get_value', lambda: m.get_value(t))
+        try:
+            srhs = [eq.rhs for eq in m.get_equations_for([t], strip_units=True) if eq.lhs is t][0]
+            guard(o, 'stripped', lambda: float(srhs))
+            guard(o, 'doprint', lambda: float(pr.doprint(srhs)))
+        except Exception as e:
+            o['stripped'] = 'ERR:' + vlib.err_class(e)
     out['precs'] = sorted(set(seen))
     out['finals'] = sorted(finals)
     return out
@@ -208,12 +238,22 @@ def judge(case, res):
                 bad.append(('%s of literal %r is %s, the nearest double of the text is %s (%r)'
                             % (name, python_text(lit), got if got.startswith('ERR') else
                                '%s (%r)' % (got, float.fromhex(got)), want, float.fromhex(want)), i, name))
+    for key, where in (('explit', 'written as the exponent of a power'), ('tinit', 'the initial_value of the variable of integration')):
+        lit = case.get(key)
+        if lit is None:
+            continue
+        want, _ = expected_hex(lit)
+        for name, got in sorted((res.get('extra') or {}).get(key, {}).items()):
+            if got != want:
+                bad.append(('%s of literal %r (%s) is %s, the nearest double of the text is %s (%r)'
+                            % (name, python_text(lit), where, got if got.startswith('ERR') else
+                               '%s (%r)' % (got, float.fromhex(got)), want, float.fromhex(want)), None, name))
     return bad
 
 
 def small_case(case, idx, stage):
     if idx is None:
-        return dict(case, stage=stage)
+        return dict(case, stage=stage, lits=case['lits'][:1])
     return {'kind': 'document', 'seed': case.get('seed'), 'strata': [], 'stage': stage, 'entities': case.get('entities', False),
             'lits': [case['lits'][0]] + ([case['lits'][idx]] if idx else [])}
 
@@ -369,7 +409,17 @@ def gen_case(seed, nlits=12):
             lit = {'form': 'cn', 'text': repr(x), 'exp': None}
         lits.append(lit)
         kinds.append(k)
-    return {'kind': 'document', 'seed': seed, 'strata': kinds, 'lits': lits, 'entities': r.random() < 0.1}
+    case = {'kind': 'document', 'seed': seed, 'strata': kinds, 'lits': lits, 'entities': r.random() < 0.1}
+    if r.random() < 0.5:
+        # a literal as the exponent of a power: near-integers must stay what they are
+        text = r.choice(['2.0000000001', '0.9999999999', '3.0000000000000004', '-1.9999999999999998', '2.5', '1.0000000000000002',
+                         '400000000001e-11', '0.5000000000000001', '-0.33333333333333337', '7.000000000000001'])
+        case['explit'] = {'form': 'cn', 'text': text, 'exp': None}
+    if r.random() < 0.4:
+        x = rand_value(r, r.choice(['bits', 'moderate', 'short', 'extreme', 'subnormal']))
+        if x != 0 and math.isfinite(x):
+            case['tinit'] = {'form': 'init', 'text': repr(x), 'exp': None}
+    return case
 
 
 FIXED = [
